@@ -71,8 +71,8 @@ inductive SaveMode | inPlace | atomicReplace
   deriving DecidableEq, Repr
 
 /-- `sweep`: `StorageInterface.delete` reaches `_delete` when `_has_saved_content` OR an interrupted save left
-something behind (proposed repair `fixes/C19-delete-sweeps-leftovers`); the tree as it is reaches it only when a
-final-name file exists. -/
+something behind (`_has_leftovers`, repair `fixes/C19-delete-sweeps-leftovers` = commit `1e4658d`); before that it
+reached it only when a final-name file existed. -/
 structure Cfg where
   saveMode : SaveMode
   sweep    : Bool
@@ -80,10 +80,10 @@ structure Cfg where
 
 /-- the code before `afb726d` -/
 def Cfg.pinned : Cfg := ⟨.inPlace, false⟩
+/-- the code between `afb726d` and `1e4658d`: atomic save, but `delete` ignores leftovers -/
+def Cfg.unswept : Cfg := ⟨.atomicReplace, false⟩
 /-- the tree as it is now -/
-def Cfg.current : Cfg := ⟨.atomicReplace, false⟩
-/-- ... with the delete repair -/
-def Cfg.swept : Cfg := ⟨.atomicReplace, true⟩
+def Cfg.current : Cfg := ⟨.atomicReplace, true⟩
 
 structure FS where
   dir      : Bool
@@ -198,7 +198,7 @@ def loadable (fs : FS) : Bool :=
   | .ok _ _ => true
   | _ => false
 
-/-- something an interrupted save left behind exists (`_has_leftovers` of the proposed delete repair) -/
+/-- something an interrupted save left behind exists (`PickleStorage._has_leftovers`) -/
 def hasLeftover (fs : FS) : Bool := fs.pcklTmp != .absent || fs.cpcklTmp != .absent
 
 /-- NOT the code: a `_has_saved_content` that also counts what an interrupted save left behind -/
